@@ -10,6 +10,8 @@ package props
 // descents, ascents, rewinds, repeats and lateral moves.
 
 import (
+	"fmt"
+	"strings"
 	"testing"
 
 	"pgregory.net/rapid"
@@ -25,6 +27,8 @@ type ModelCase struct {
 	Mode   app.Mode `json:"mode"`
 	// ClearTerminateAt: request indices before which external code clears TERMINATE (C06/C20)
 	ClearTerminateAt []int `json:"clear_terminate_at,omitempty"`
+	// UseDb: the application is served by resource.DbResource over a memdb
+	UseDb bool `json:"use_db,omitempty"`
 }
 
 var modelModes = []app.Mode{{Kind: "long"}, {Kind: "long"}, {Kind: "persist", Backend: "mem"}}
@@ -125,11 +129,47 @@ func checkC03(c ModelCase) (o Outcome) {
 	return
 }
 
-var c04Opts = GenOpts{MaxNodes: 5, MultiHalt: true, Flags: true, Sinks: true, OutputSize: true, CustomRoot: true, Errors: true, NoEndNodes: true}
+var c04Opts = GenOpts{MaxNodes: 5, MultiHalt: true, Flags: true, Sinks: true, OutputSize: true, CustomRoot: true, Errors: true, NoEndNodes: true, RelCatch: true}
+
+// addPager adds a node whose content certainly spans several pages, reachable from the
+// entry node with selector 9, offering next/previous, up, rewind and repeat — so that
+// histories leave a node while its page index is above 0.
+func addPager(t *rapid.T, a *app.App) {
+	rows := 5 + uniformN(t, 8, "pagerrows")
+	var content []string
+	for i := 0; i < rows; i++ {
+		content = append(content, fmt.Sprintf("row number %d", i))
+	}
+	a.Syms = append(a.Syms, app.Sym{Name: "pg", Results: []app.Result{{Content: strings.Join(content, "\n")}}})
+	a.Nodes = append(a.Nodes, app.Node{Name: "pager", Tpl: "{{.pg}}", Code: []app.Instr{
+		{Op: refdec.LOAD, Sym: "pg", Num: 0}, {Op: refdec.MAP, Sym: "pg"},
+		{Op: refdec.MNEXT, Sym: "to_next", Sel: "11"}, {Op: refdec.MPREV, Sym: "to_prev", Sel: "22"}, {Op: refdec.HALT},
+		{Op: refdec.INCMP, Sym: ">", Sel: "11"}, {Op: refdec.INCMP, Sym: "<", Sel: "22"}, {Op: refdec.INCMP, Sym: "_", Sel: "0"},
+		{Op: refdec.INCMP, Sym: "^", Sel: "1"}, {Op: refdec.INCMP, Sym: ".", Sel: "*"}}})
+	a.Cfg.OutputSize = uint32(60 + uniformN(t, 60, "pagersize"))
+	// reachable from every node that waits for input: selector 9 right after its first HALT
+	for ni := range a.Nodes {
+		n := &a.Nodes[ni]
+		if n.Name == "pager" || n.Name == "_catch" {
+			continue
+		}
+		for i, in := range n.Code {
+			if in.Op == refdec.HALT {
+				code := append([]app.Instr{}, n.Code[:i+1]...)
+				code = append(code, app.Instr{Op: refdec.INCMP, Sym: "pager", Sel: "9"})
+				n.Code = append(code, n.Code[i+1:]...)
+				break
+			}
+		}
+	}
+}
 
 func genC04(t *rapid.T) ModelCase {
 	o := c04Opts
 	a := GenApp(t, o)
+	if chancePct(t, 50, "pager") {
+		addPager(t, a)
+	}
 	modelFriendly(a)
 	mode := modelModes[uniformN(t, len(modelModes), "mode")]
 	return ModelCase{App: a, Inputs: genGuidedHistory(t, a, 16, mode.Kind == "persist"), Mode: mode}
